@@ -14,6 +14,15 @@ for ln in p.stdout.splitlines():
     if ev.get('Action') == 'pass' and ev.get('Test') and '/' not in ev['Test']:
         passed.add(ev['Package'] + '::' + ev['Test'])
 missing = sorted(stable - passed)
+# network-bound tests occasionally fail on a busy port: retry each missing test alone
+for m in list(missing):
+    pkg, name = m.split('::')
+    for _ in range(3):
+        r = subprocess.run(['go', 'test', '-vet=off', '-count=1', '-run', '^' + name + '$', pkg], cwd='/repo', env=env, capture_output=True, text=True)
+        if r.returncode == 0:
+            missing.remove(m)
+            passed.add(m)
+            break
 print('baseline: %d/%d stable tests pass' % (len(stable & passed), len(stable)))
 for m in missing:
     print('MISSING', m)
